@@ -1,5 +1,7 @@
 import NbioVerif.Lemmas.C11Own
 import NbioVerif.Lemmas.C11Body
+import NbioVerif.Lemmas.C11Conn
+import NbioVerif.Lemmas.C11Ws
 /-! C11 pooled-buffer ownership, HTTP side — property theorems over the length-abstracted twins `Own`
 (nbhttp/response.go + releaseResponse; body.go and the parser cache in `OwnBody`). -/
 namespace Own
@@ -127,3 +129,112 @@ example :
     s.heap.bad = none ∧ s.closed = true ∧ s.heap.trace.length = 11 := by decide
 
 end Own
+
+/-! ## core connection: the write queue -/
+namespace OwnC
+
+/-- **C11 (core Conn write queue), freed at most once / never used after free / never shared.** For EVERY
+sequence of Write, Writev, Sendfile, flush (writable events) and Close on a connection, every kernel
+answer to every syscall (short writes of any length, EAGAIN, EINTR, fatal errors; an exhausted script is
+EAGAIN), any allocator capacities and any write-buffer limit: the heap never flags, every buffer in the
+write list is live and no buffer is queued twice.  (Covers newToWriteBuf's merge-with-growth path —
+Malloc, copy, Free of the old tail, Append —, release on complete flush, and the release of the whole
+backlog by closeWithErrorWithoutLock after a fatal error, an overflow or Close.) -/
+theorem c11_conn_write_queue (capOf : Nat → Nat) (maxWB : Nat) (ops : List COp) :
+    let s := crun capOf maxWB {} ops
+    s.heap.bad = none ∧ (∀ id ∈ cids s.wl, s.heap.live id = true) ∧ (cids s.wl).Nodup := by
+  intro s
+  have h := crun_inv capOf maxWB ops {} cinv_init
+  exact ⟨h.ok, h.bl, h.nd⟩
+
+/-- after Close (or any fatal error) the queue holds nothing -/
+theorem c11_conn_close_releases (capOf : Nat → Nat) (maxWB : Nat) (ops : List COp)
+    (hopen : (crun capOf maxWB {} ops).closed = false) :
+    (close (crun capOf maxWB {} ops)).wl = [] ∧ (close (crun capOf maxWB {} ops)).heap.bad = none := by
+  have h := close_inv _ (crun_inv capOf maxWB ops {} cinv_init)
+  refine ⟨?_, h.ok⟩
+  unfold close
+  rw [if_neg (by simp [hopen])]
+  rfl
+
+/-- non-vacuity: a backlog that is merged with growth, partly flushed, and released by a fatal error -/
+example :
+    let capOf := fun n => max 64 ((n + 63) / 64 * 64)
+    let s := crun capOf 0 {} [.write 100 .eagain, .write 3000 .eagain, .write 70000 .eagain,
+                               .flush [.wrote 1000], .flush [.fail]]
+    s.heap.bad = none ∧ s.closed = true ∧ s.wl = [] ∧
+      s.heap.trace.reverse = [.write none, .malloc 1 100, .malloc 2 3100, .free 1, .append 2, .malloc 3 70000,
+        .write (some 2), .write (some 2), .write (some 2), .free 2, .free 3] := by decide
+
+end OwnC
+
+/-! ## websocket Conn: send queue, sender goroutine, receive buffers -/
+namespace OwnW
+open Own (Heap Ev Bad)
+
+/-- **C11 (websocket Conn), freed at most once / never used after free / never shared.** For EVERY
+interleaving — any list of the critical sections of the writers (WriteMessage with any fragment sizes and
+conn answers, data or control), of the sender goroutine of the async send queue (enter conn.Write, return
+from it with or without an error, Free, take the next slot), of the closer (CloseAndClean) and of the reader
+(Parse: append to the cache, one section per frame with any frame geometry/kind/fin flag, the handler calls
+with or without ReleasePayload, with the default pong) in any order, actions that are not enabled being
+no-ops — the heap never flags, and the buffers held by the send queue slots, by the sender goroutine
+(in flight inside conn.Write), by `bytesCached`, by `message` and by Parse's local variables are all live and
+pairwise distinct: no buffer has two owners. -/
+theorem c11_ws_ownership (g : Cfg) (acts : List Act) :
+    let s := run g {} acts
+    s.heap.bad = none ∧ (∀ id ∈ owned s, s.heap.live id = true) ∧ (owned s).Nodup := by
+  intro s
+  have h := run_inv g acts {} winv_init
+  exact ⟨h.ok, h.bl, h.nd⟩
+
+/-- CloseAndClean leaves no buffer in the queue, the cache or the message field — and the frame the sender
+goroutine is writing stays ITS buffer (live until its own Free), whatever the interleaving before. -/
+theorem c11_ws_close_releases (g : Cfg) (acts : List Act) (hopen : (run g {} acts).closed = false) :
+    let s := close (run g {} acts)
+    s.qrest = [] ∧ s.cache = none ∧ s.message = none ∧ s.heap.bad = none ∧
+      (∀ id, s.inflight = some id → s.heap.live id = true) := by
+  intro s
+  have h : WInv s := close_inv _ (run_inv g acts {} winv_init)
+  have hs : s = close (run g {} acts) := rfl
+  unfold close at hs
+  rw [if_neg (by simp [hopen])] at hs
+  refine ⟨by rw [hs], by rw [hs], by rw [hs], h.ok, ?_⟩
+  intro id hid
+  exact h.bl id (by simp [owned, hid])
+
+/-- non-vacuity: three frames queued, CloseAndClean while the first is inside conn.Write and two are
+waiting; the sender goroutine then comes back from the write and frees ITS frame: every buffer freed exactly
+once -/
+example :
+    let s := run { async := true } {} [.send false [(100, true)], .send false [(200, true), (300, true)],
+                                       .dStart, .close, .dEnd true, .dFree, .dAdvance]
+    s.heap.bad = none ∧ s.qtaken = 3 ∧ s.qrest = [] ∧ s.inflight = none ∧ s.phase = .idle ∧
+      s.heap.trace.reverse = [.malloc 1 100, .malloc 2 200, .malloc 3 300, .write (some 1), .free 2, .free 3, .free 1] := by
+  decide
+
+/-- non-vacuity, receive path: a fragmented message with a ping between the fragments, ReleasePayload on:
+cache, message and payloads all change hands and are freed once -/
+example :
+    let s := run { rp := true } {} [.rxAppend 40, .rxFrame ⟨12, 10, false, false⟩, .rxFrame ⟨6, 4, true, true⟩,
+                                     .rxHandle true (6, true), .rxFrame ⟨22, 20, false, true⟩, .rxHandle false (0, true)]
+    s.heap.bad = none ∧ s.cache = none ∧ s.message = none ∧ s.held = [] ∧
+      s.heap.trace.reverse = [.malloc 1 40, .malloc 2 10, .malloc 3 4, .malloc 4 6, .write (some 4), .free 4, .free 3,
+        .append 2, .free 1, .free 2] := by
+  decide
+
+/-- the model's heap is not blind: a sender goroutine that takes the next frame WITHOUT clearing its slot
+(the slot keeps the buffer the goroutine will free) is flagged as soon as CloseAndClean runs on the backlog -/
+def dAdvanceKeepingSlot (s : S) : S :=
+  match s.phase, s.qrest with
+  | .advance, id :: _ => { s with inflight := some id, phase := .ready }
+  | _, _ => s
+
+example :
+    let g : Cfg := { async := true }
+    let s := run g {} [.send false [(100, true)], .send false [(200, true)], .dStart, .dEnd true, .dFree]
+    let s := run g (dAdvanceKeepingSlot s) [.dStart, .close, .dEnd true, .dFree]
+    s.heap.bad = some (.useAfterFree 2) := by
+  decide
+
+end OwnW
